@@ -49,4 +49,76 @@ example : fromScalars exEnv [⟨101, 11, 2⟩, ⟨102, 12, 50⟩] = .ok (.array 
 
 example : arrayGetValues exEnv 101 11 .tuple [1, 2] 12 = .ok (.tuple, [100, 200]) := by decide +kernel
 
+/-! `FromScalars` with keywords, derived quantities, rows of tuples, `__str__` -/
+
+example : fromScalarsKw exEnv [⟨[⟨101, 11, 1⟩], 2⟩, ⟨[⟨102, 12, 1⟩], 50⟩] none none
+    = .ok (.array [⟨101, 11, 1⟩] .list [2, 1 / 2]) := by decide +kernel
+
+example : fromScalarsKw exEnv [⟨[⟨101, 11, 1⟩], 2⟩, ⟨[⟨102, 12, 1⟩], 50⟩] (some 12) (some 102)
+    = .ok (.array [⟨102, 12, 1⟩] .list [200, 50]) := by decide +kernel
+
+-- the empty string is falsy: the unit of the first Scalar is used
+example : fromScalarsKw exEnv [⟨[⟨101, 12, 1⟩], 2⟩] (some 0) none = .ok (.array [⟨101, 12, 1⟩] .list [2]) := by decide +kernel
+
+example : fromScalarsKw exEnv [⟨[⟨101, 11, 1⟩], 2⟩] (some 21) none = .error .units := by decide +kernel
+
+/-- the example database with a default category for unit 11, and a quantity type 3 whose unit is NAMED like the
+unit string of `11/21` (bytes 11, '/', 21), with category 104 -/
+def exDb2 : Db :=
+  { exDb with
+    units := { exRow 1 11 1 with defaultCat := 101 } :: exRow 3 (Sym.ofBytes [11, 47, 21]) 1 :: exDb.units.tail,
+    cats := exCat 104 3 (Sym.ofBytes [11, 47, 21]) :: exDb.cats }
+
+def exEnv2 : Env := Env.ofDb exDb2
+
+example : fromScalarsKw exEnv2 [] (some 11) none = .ok (.array [⟨101, 11, 1⟩] .list []) := by decide +kernel
+example : fromScalarsKw exEnv2 [] (some 12) none = .error .units := by decide +kernel   -- no default category, not a category
+example : fromScalarsKw exEnv2 [] (some 101) none = .error .assertion := by decide +kernel -- a category name as the unit
+example : fromScalarsKw exEnv2 [] (some 11) (some 101) = .error .assertion := by decide +kernel
+
+example : quantityUnit [⟨101, 11, 1⟩, ⟨103, 21, -1⟩] = Sym.ofBytes [11, 47, 21] := by decide +kernel
+
+-- a Scalar of a derived quantity: refused under its own (composed) category string, accepted under a registered
+-- category whose unit has its unit string, never converted
+example : ∃ e, fromScalarsKw exEnv2 [⟨[⟨101, 11, 1⟩, ⟨103, 21, -1⟩], 5⟩] none none = .error e := ⟨.units, by decide +kernel⟩
+
+example : fromScalarsKw exEnv2 [⟨[⟨101, 11, 1⟩, ⟨103, 21, -1⟩], 5⟩, ⟨[⟨104, Sym.ofBytes [11, 47, 21], 1⟩], 7⟩] none (some 104)
+    = .ok (.array [⟨104, Sym.ofBytes [11, 47, 21], 1⟩] .list [5, 7]) := by decide +kernel
+
+example : fromScalarsKw exEnv2 [⟨[⟨101, 11, 1⟩, ⟨103, 21, -1⟩], 5⟩] (some 11) (some 104) = .error .units := by decide +kernel
+
+example : fromScalarsKw exEnv2 [⟨[⟨101, 11, 2⟩], 5⟩] (some 11) (some 101) = .error .value := by decide +kernel
+
+-- a Scalar of the empty quantity is taken as it is
+example : fromScalarsKw exEnv [⟨[⟨101, 11, 1⟩], 2⟩, ⟨[], 3⟩] none none = .ok (.array [⟨101, 11, 1⟩] .list [2, 3]) := by
+  decide +kernel
+
+example : arrayGetValuesRows exEnv 101 11 [[1, 2], [], [3]] 12 = .ok [[100, 200], [], [300]] := by decide +kernel
+
+-- "(1, 2) (3,) [\v]" (unit 11 is the byte 11)
+example : arrayStr [⟨101, 11, 1⟩] [⟨true, [40, 49, 44, 32, 50, 41], []⟩, ⟨true, [40, 51, 44, 41], []⟩]
+    = [40, 49, 44, 32, 50, 41, 32, 40, 51, 44, 41, 32, 91, 11, 93] := by decide +kernel
+
+example : arrayStr [⟨101, 11, 1⟩] [⟨false, [49, 46, 48], [49]⟩, ⟨false, [50, 46, 53], [50, 46, 53]⟩]
+    = [49, 32, 50, 46, 53, 32, 91, 11, 93] := by decide +kernel
+
+/-! repair 4829052: the dummy amounts (1.0, 1.0) are evaluated only for operands without values.  Unit 14 is unit 11
+shifted by one (`1.0 [14] = 0 [11]`, like `1 atm = 0 Pa(g)`). -/
+
+def exEnv3 : Env := Env.ofDb { exDb with units := exRowOff 1 14 1 (-1) :: exDb.units }
+
+example : binop exEnv3 true .div (.array [⟨101, 11, 1⟩] .list [2]) (.array [⟨101, 14, 1⟩] .tuple [3])
+    = .ok (.array [] .list [1]) := by decide +kernel
+
+example : binop exEnv3 true .div (.scalar [⟨101, 11, 1⟩] 2) (.scalar [⟨101, 14, 1⟩] 3) = .ok (.scalar [] 1) := by
+  decide +kernel
+
+-- still: value-less list / tuple operands are computed on the dummy amounts (candidate known finding) ...
+example : binop exEnv3 true .div (.array [⟨101, 11, 1⟩] .list []) (.array [⟨101, 14, 1⟩] .tuple []) = .error .other := by
+  decide +kernel
+
+-- ... the vectorised branch is not
+example : binop exEnv3 true .div (.array [⟨101, 11, 1⟩] .nd []) (.array [⟨101, 14, 1⟩] .tuple []) = .ok (.array [] .nd []) := by
+  decide +kernel
+
 end Barril.Ops
